@@ -124,7 +124,7 @@ PROPS = {
         "assumptions": BOARD_ASSUME,
         "jobs": [
             chess_model("model-same", ["SameAsSelf"], [], MCQ, MCT),
-            board_job("same", ["same"], ["C13"], {"histories": 250, "subtrees": 20}, {"histories": 20000, "subtrees": 200, "deep": 10}, sample_kinds=["same"]),
+            board_job("same", ["same"], ["C13"], {"histories": 200, "subtrees": 80}, {"histories": 20000, "subtrees": 200, "deep": 10}, sample_kinds=["same"]),
         ],
     },
     "C14": {
